@@ -33,6 +33,8 @@ func main() {
 		cmdSeq(os.Args[2:])
 	case "replay":
 		cmdReplay(os.Args[2:])
+	case "persist":
+		cmdPersist(os.Args[2:])
 	default:
 		die(2, "unknown driver %q", os.Args[1])
 	}
